@@ -59,6 +59,10 @@ type FileSpec struct {
 	NullSecond bool   `json:"null_second,omitempty"`
 	SplitMode  int    `json:"split_mode,omitempty"` // 0 single block; k>0: blocks of k items; negative: sized blocks of -k items
 	SyncSeed   uint64 `json:"sync_seed"`
+	// MetaSplit != 0 re-renders the header (either writer) with its metadata
+	// map split over several map blocks, in a seeded order, optionally with
+	// extra user entries: 1 schema|codec, 2 codec|schema, 3 user|schema|user|codec, 4 one block, extra entries.
+	MetaSplit int `json:"meta_split,omitempty"`
 }
 
 // BuiltFile is a generated artifact plus what the harness knows about it.
@@ -87,6 +91,9 @@ func genFileSpec(r *Rng, types []string, allowRef bool, maxN int) FileSpec {
 	fs.N = r.Range(0, maxN)
 	if r.P(1, 3) {
 		fs.N = r.Range(0, 4)
+	}
+	if r.P(1, 5) {
+		fs.MetaSplit = r.Range(1, 4)
 	}
 	d := typeByName(fs.Type)
 	// Types with multi-entry maps are always written by the reference writer
@@ -236,6 +243,39 @@ func BuildFileWith(fs FileSpec, values []reflect.Value) (*BuiltFile, error) {
 		bf.Bytes = ref.WriteContainer(ref.Magic, ref.StdMeta(s.JSON(), fs.Codec), syncFromSeed(fs.SyncSeed), blocks)
 	default:
 		return nil, fmt.Errorf("unknown writer %q", fs.Writer)
+	}
+	if fs.MetaSplit != 0 {
+		c, err := ref.ParseContainer(bf.Bytes)
+		if err != nil {
+			return nil, fmt.Errorf("meta split: %w", err)
+		}
+		var schemaKV, codecKV []ref.KV
+		for _, m := range c.Meta {
+			kv := ref.KV{Key: m.Key, Val: m.Val}
+			if m.Key == "avro.codec" {
+				codecKV = append(codecKV, kv)
+			} else {
+				schemaKV = append(schemaKV, kv)
+			}
+		}
+		u1 := []ref.KV{{Key: "user.note", Val: []byte("written by the reference writer")}}
+		u2 := []ref.KV{{Key: "user.empty", Val: nil}, {Key: "zz", Val: []byte{0, 1, 2, 0xff}}}
+		var groups [][]ref.KV
+		switch fs.MetaSplit {
+		case 1:
+			groups = [][]ref.KV{schemaKV, codecKV}
+		case 2:
+			groups = [][]ref.KV{codecKV, schemaKV}
+		case 3:
+			groups = [][]ref.KV{u1, schemaKV, u2, codecKV}
+		default:
+			groups = [][]ref.KV{append(append(append([]ref.KV{}, u1...), schemaKV...), append(codecKV, u2...)...)}
+		}
+		var blocks []ref.BlockSpec
+		for _, bl := range c.Blocks {
+			blocks = append(blocks, ref.BlockSpec{Count: bl.Count, Stored: bf.Bytes[bl.PayloadOff:bl.PayloadEnd]})
+		}
+		bf.Bytes = ref.WriteContainerMeta(ref.Magic, groups, c.Sync, blocks)
 	}
 	return bf, nil
 }
